@@ -445,7 +445,7 @@ func c02Check(c C02Case, cx *h.Ctx) *h.Failure {
 func TestC02(t *testing.T) {
 	h.Run(t, h.Prop[C02Case]{
 		ID:          "C02",
-		Rule:        "cases = an ordered pair of valid geometries (all 7x7 type pairs, empty operands and empty members, GeometryCollections with pairwise exactly-disjoint members, nesting <= 2) drawn on triangulated integer grids that coincide (shared vertices, collinear overlaps, touching rings), are offset by half a cell (proper crossings) or shifted, mapped by one injective integer linear map (|c| <= 1024), plus a random DE-9IM matrix/pattern pair (incl. malformed) for RelateMatches; oracle = DE-9IM from the exact rational arrangement: every vertex, open sub-edge and slab trapezoid is located in I/B/E of each operand by the OGC definitions (mod-2 rule, rings, crossing parity) and M[x][y] = max dimension of the cells located (x,y); predicates = documented pattern lists evaluated by an independent matcher, Crosses/Overlaps with dimensions ignoring empty members; strict domain only (exact clearance >= 1e-6 x magnitude), others counted as skipped; non-trivial = >= 4 non-F entries and the operands' skeletons meet Families of the shared pair generator: triangulated integer grids that coincide / are offset by half a cell / are shifted, under an injective integer map and optionally an exact dyadic affine image; hole-nesting (annulus, island, covering members, far-away decoy members in front of the deciding one); general-position floats (random 53-bit mantissas in a window - crossing points not representable); concurrent (3..14 integer segments through one non-lattice point, dyadic or not).",
+		Rule:        "cases = an ordered pair of valid geometries (all 7x7 type pairs, empty operands and empty members, GeometryCollections with pairwise exactly-disjoint members, nesting <= 2) drawn on triangulated integer grids that coincide (shared vertices, collinear overlaps, touching rings), are offset by half a cell (proper crossings) or shifted (1 in 20 identical, of which half spelled differently: as a collection with an empty higher-dimension member, or with every line retraced), mapped by one injective integer linear map (|c| <= 1024), plus a random DE-9IM matrix/pattern pair (incl. malformed) for RelateMatches; oracle = DE-9IM from the exact rational arrangement: every vertex, open sub-edge and slab trapezoid is located in I/B/E of each operand by the OGC definitions (mod-2 rule, rings, crossing parity) and M[x][y] = max dimension of the cells located (x,y); predicates = documented pattern lists evaluated by an independent matcher, Crosses/Overlaps with dimensions ignoring empty members; strict domain only (exact clearance >= 1e-6 x magnitude), others counted as skipped; non-trivial = >= 4 non-F entries and the operands' skeletons meet Families of the shared pair generator: triangulated integer grids that coincide / are offset by half a cell / are shifted, under an injective integer map and optionally an exact dyadic affine image; hole-nesting (annulus, island, covering members, far-away decoy members in front of the deciding one); general-position floats (random 53-bit mantissas in a window - crossing points not representable); concurrent (3..14 integer segments through one non-lattice point, dyadic or not).",
 		Assumptions: []string{"exact kernel (internal/exact)", "Equals of two empty geometries is true (documented special case)"},
 		Gen:         c02Gen,
 		Check:       c02Check,
